@@ -66,6 +66,11 @@ def shapes(tier, focus="C14"):
     out.append({"mode": "inmem", "N": 2, "req": 2, "init": None, "growth": 2, "n_lin": 1, "nonfinite": None})
     out.append({"mode": "file", "N": 3, "req": 2, "init": None, "growth": 2, "n_lin": 1, "maxprior": None, "randomize": False, "src": "filename", "n_batches": None})
     out.append({"mode": "file", "N": 3, "req": 1, "init": None, "growth": 2, "n_lin": 1, "maxprior": None, "randomize": False, "src": "filename", "n_batches": None})
+    # a first batch of three or more shuffled rows (index arrays whose sorting permutation is not its own inverse)
+    for N, init, req in ((3, 3, 1), (4, 3, 2), (4, 4, 1)):
+        if tier == "quick" and N == 4 and init == 4:
+            continue
+        out.append({"mode": "file", "N": N, "req": req, "init": init, "growth": 128, "n_lin": 1, "maxprior": None, "randomize": True, "src": "filename", "n_batches": None})
     # call history: the same file name / JokerSamples object held another library when the sampler ran before
     for N, srck, init in ((3, "filename", 1), (3, "object", 2)):
         out.append({"mode": "file", "N": N, "req": 2, "init": init, "growth": 128, "n_lin": 1, "maxprior": None, "randomize": init == 1, "src": srck, "n_batches": None,
@@ -334,6 +339,9 @@ def _spec(sink, path, S, shape, info, focus, logprobs):
         pref += [core.lift(v) >= -4, core.lift(v) <= z3.RealVal("-1/50")]
     for i, r_ in enumerate(lib):
         pref += [core.lift(r_[0]) == 2 + i] + [z3.And(core.lift(c) >= 0, core.lift(c) <= 5) for c in r_[1:]]
+    # second tier (dropped when unsatisfiable): equal uniforms in the final iteration, so that the counterexample does not hinge on the
+    # pairing of uniforms with samples, which the replay oracle leaves free
+    pref = [pref, [core.lift(v) == core.lift(vs[0]) for v in vs[1:]]]
     if focus == "C14":
         sink.check(path, "rows", core.SB(c02.claims_rows(info2, rows, kept, ranks)), site=shape["mode"], describe=desc, prefer=pref)
     else:
